@@ -204,6 +204,9 @@ func runCheck(o *options) int {
 			}
 			// every conjunct of the goal is a query of its own; all must be unsat
 			var total float64
+			if len(ob.parts) == 0 {
+				ob.Res = solveResult{status: "unsat", solver: "syntactic"}
+			}
 			for i, part := range ob.parts {
 				part := part
 				text := func(noLambda bool) string { return ob.queryGoal(prelude, noLambda, false, part) }
